@@ -448,7 +448,20 @@ def _take_callsites(model: Model, f: FuncInfo, T: RuleResult):
     src = ast.unparse(dg.node)
     rets = [r for r in own_nodes(dg.node) if isinstance(r, ast.Return)]
     asg = [s for s in own_nodes(dg.node) if isinstance(s, ast.Assign) and isinstance(s.value, ast.Call) and ast.unparse(s.value.func) == "torch.linalg.eigh"]
-    if asg and rets and ast.unparse(asg[0].targets[0]).strip("()") == ast.unparse(rets[-1].value).strip("()") and ast.unparse(asg[0].value.args[0]) == dg.params()[1]:
+    # every definition of the returned names is that one eigh call: a second producer on some path (a "diagonal matrix" / "small matrix"
+    # special case) is a second implementation of the decomposition whose ordering / normalisation conventions nothing ties to LAPACK's
+    other_defs = []
+    if asg and rets:
+        _tn = {n.id for n in ast.walk(asg[0].targets[0]) if isinstance(n, ast.Name)}
+        for s_ in own_nodes(dg.node):
+            if isinstance(s_, (ast.Assign, ast.AugAssign)) and s_ is not asg[0]:
+                for t_ in (s_.targets if isinstance(s_, ast.Assign) else [s_.target]):
+                    if any(isinstance(n, ast.Name) and n.id in _tn for n in ast.walk(t_)):
+                        other_defs.append(s_)
+    if other_defs:
+        T.bad(dg, other_defs[0], "on some path degen_symeig.forward takes the eigenpairs from `%s` instead of torch.linalg.eigh: a special-case producer has its own "
+              "ordering / normalisation (A X = X diag(E) with ascending E and orthonormal X is LAPACK's contract, not this expression's)" % norm_stmt(other_defs[0], 70))
+    elif asg and rets and ast.unparse(asg[0].targets[0]).strip("()") == ast.unparse(rets[-1].value).strip("()") and ast.unparse(asg[0].value.args[0]) == dg.params()[1]:
         T.ok(dg.fq, "degen_symeig.forward returns torch.linalg.eigh(A) unchanged (ascending values, orthonormal vectors)")
     else:
         T.bad(dg, dg.node, "degen_symeig.forward must return torch.linalg.eigh of its argument unchanged")
